@@ -193,6 +193,10 @@ def r5_reopen(ck, F, R="C07-R5"):
         ck.ob(R, f"flushed-before-pushed/{p.split('::')[-1]}", ok, "the chunk is flushed (flush()? and into_inner()?) before it joins the chunk vector", b)
 
 
+SORT_FNS = ("sort_by_key", "sort_unstable_by_key", "par_sort_by_key", "par_sort_unstable_by_key", "sort_by", "sort_unstable_by", "sort", "sort_unstable",
+            "par_sort_by", "par_sort_unstable_by", "par_sort", "par_sort_unstable", "sort_by_cached_key", "par_sort_by_cached_key")
+
+
 def r6_sort_table(ck, F):
     R = "C07-R6"
     want = {"sorter::Entries::sort_by_key": {"Stable": "sort_by_key", "Unstable": "sort_unstable_by_key"}}
@@ -214,6 +218,7 @@ def r6_sort_table(ck, F):
         if not ck.ob(R, f"switch-on-algorithm/{path.split('::')[-1]}", sw is not None and set(sw[1]) == {"Stable", "Unstable"}, "matches on SortAlgorithm", b):
             continue
         bb, labels = sw
+        ndirect = 0
         for var, fn in table.items():
             reg = arm_region(b, bb, labels[var])
             got = []
@@ -222,10 +227,15 @@ def r6_sort_table(ck, F):
                     op = st["rv"]["op"]
                     if op["k"] == "const" and "fn" in op:
                         got.append(op["fn"]["path"].rsplit("::", 1)[-1])
+            # ... or the arm calls the sort function itself
+            direct = [s for s, c, t in b.calls() if s.bb in reg and c is not None and not c.get("local") and callee_name(c).rsplit("::", 1)[-1] in SORT_FNS]
+            got += [callee_name(callee_of(b.at(s))).rsplit("::", 1)[-1] for s in direct]
+            ndirect += len(direct)
             ck.ob(R, f"sort-arm/{path.split('::')[-1]}/{var}", got == [fn], f"{var} -> {got} (expected [{fn}])", b)
         # the reified function is called on the bounds with a key closure reading the tail
         ind = [(s, t) for s, c, t in b.calls() if c is None]
-        ck.ob(R, f"sort-invoked/{path.split('::')[-1]}", len(ind) == 1, "the selected sort function is invoked exactly once", b)
+        alls = [s for s, c, t in b.calls() if c is not None and not c.get("local") and callee_name(c).rsplit("::", 1)[-1] in SORT_FNS]
+        ck.ob(R, f"sort-invoked/{path.split('::')[-1]}", (len(ind) == 1 and not alls) or (not ind and ndirect == 2 and len(alls) == 2), "the selected sort function is invoked exactly once", b)
     w = F.body(A("sorter_write_chunk"))
     sw = None
     for bb in sorted(w.normal_blocks()):
